@@ -439,8 +439,7 @@ var lastTag int
 
 func mname(sig string) string { return sig[:strings.IndexByte(sig, '(')] }
 
-func vtableCases(a *vh.Args, rep *vh.Report, ir *fast.Interp, rng *vh.Rng, n int) {
-	cw := vh.NewCases(a, "From Coq Require Import List NArith ZArith.\nFrom Verif Require Import C11.Model.\nImport ListNotations.\nOpen Scope N_scope.", "case", "mismatches", 250)
+func vtableCases(cw *vh.Cases, rep *vh.Report, ir *fast.Interp, rng *vh.Rng, n int) {
 	ir.DeclFunc("rec", func(t int) { lastTag = t })
 	ir.Eval(`import "flag"`)
 	ids := map[string]int{}
@@ -561,12 +560,11 @@ func vtableCases(a *vh.Args, rep *vh.Report, ir *fast.Interp, rng *vh.Rng, n int
 			rep.Fail(vh.Failure{Key: "c11:vtable:" + src, What: "conversion of a type with all methods to the compiled interface fails", Input: input, Got: fmt.Sprint(perr)})
 		}
 		idx := 100000 + c
-		cw.Add(fmt.Sprintf("mkCase %d %s %s (%s)", idx, vh.CoqList(ims, "N"), vh.CoqList(tm, "(N * N)"), obs))
+		cw.Add(fmt.Sprintf("XV (mkCase %d %s %s (%s))", idx, vh.CoqList(ims, "N"), vh.CoqList(tm, "(N * N)"), obs))
 		rep.CaseInput(idx, input)
 		rep.Count("vtable|"+src, len(is.methods) > 1 || drop >= 0 || ambig >= 0)
 		rep.Dist(map[bool]string{true: "vtable:converted", false: "vtable:rejected"}[perr == nil])
 	}
-	cw.Close()
 }
 
 func main() {
@@ -579,7 +577,7 @@ func main() {
 		"interpreted io.Reader through io.Copy/ioutil.ReadAll/io.ReadFull/bufio, interpreted io.Writer through fmt.Fprintf/io.WriteString/io.Copy; heap.Interface; callbacks run on goroutines not started by the interpreter: "+
 		"compiled parallelMap, time.AfterFunc, sync.Once, compiled inGoroutine; compiled std functions called with interpreted arguments), each run in the interpreter and compiled with go build (go 1.18 module), outputs compared; "+
 		"avoided class (known finding c11:proxy-unwrapped-into-empty-interface): a proxied interpreted value passed to a compiled parameter of type interface{}; corpus programs run first. "+
-		"Plus every method of every P_* proxy of imports.Packages called through its interface with PRNG arguments (recording closures in the fields). Plus vtable cases: random interpreted method sets converted to 10 compiled interfaces, every proxy field called to identify the stored method (model: coq/C11 fill). "+
+		"Plus every method of every P_* proxy of imports.Packages called through its interface with PRNG arguments (recording closures in the fields). Plus vtable cases: random interpreted method sets converted to 10 compiled interfaces, every proxy field called to identify the stored method (model: coq/C11 fill). Plus conversion-site cases (model: coq/C11 crun/cread): ONE conversion site in a loop executed once per CConv operation on an addressable slice element, CSet operations assign to the elements in between, every interface value produced is read at the end; oracle: the same operation list run natively; non-trivial when the site is executed >= 2 times. "+
 		"A program is non-trivial when at least one interpreted function or method was invoked by compiled code (all templates); distinct by SHA-256 of the source")
 	nProg, nVt := 180, 150
 	if a.Thorough() {
@@ -640,7 +638,14 @@ func main() {
 			rep.Fail(vh.Failure{Key: key, What: "interpreted program and compiled program print different results (" + p.Kind + ")", Input: p, Got: got, Want: want[i]})
 		}
 	}
-	vtableCases(a, rep, ir, rng, nVt)
+	cw := vh.NewCases(a, "From Coq Require Import List NArith ZArith.\nFrom Verif Require Import C11.Model.\nImport ListNotations.\nOpen Scope N_scope.", "xcase", "xmismatches", 250)
+	vtableCases(cw, rep, ir, rng, nVt)
+	nConv := 120
+	if a.Thorough() {
+		nConv = 2500
+	}
+	convCases(cw, rep, ir, rng.Fork(), nConv)
+	cw.Close()
 	// every method of every proxy struct called through its interface with PRNG arguments on recording closures (shared with C31)
 	rep.Extra["proxies_exercised"] = c31core.ExerciseProxies(rep, a, rng.Fork())
 	rep.Extra["corpus_programs"] = nCorpus
